@@ -412,7 +412,7 @@ def poison_histories(ctx, mon, rng):
         def _serialize(self):
             raise RuntimeError("poisoned")
 
-    for i in range(ctx.pick(150, 3000)):
+    for i in range(ctx.pick(150, 15000)):
         # a nesting with one poisoned member at a random depth
         depth = rng.randint(1, 5)
         path = []
@@ -488,7 +488,7 @@ def run(ctx):
             ctx.sample({"op": "roundtrip", "value": gen.trepr(x)})
     ctx.exhaustive["nestings of depth<=2, width<=2 over 5 container kinds x 6 primitives"] = True
     # (b) random nestings
-    nr = ctx.pick(3000, 60000)
+    nr = ctx.pick(3000, 300000)
     for i in range(nr):
         budget = [rng.choice([20, 60, 150, 400])]
         x = rand_nest(rng, rng.randint(1, 8), rng.randint(1, 8), budget)
@@ -496,7 +496,7 @@ def run(ctx):
         if i % 1009 == 0:
             ctx.sample({"op": "roundtrip", "value": gen.trepr(x)[:300]})
     # plain JSON data through load alone
-    for i in range(ctx.pick(1000, 20000)):
+    for i in range(ctx.pick(1000, 100000)):
         d = gen.json_value(rng, 4, 4)
         out = mon.load(d, "json")
         ctx.case(("load-json", gen.trepr(d)))
